@@ -213,19 +213,20 @@ def identifications(b, dim, l, r, n):
     return {"f": [(l, r)], "e": pairs, "v": [(b[1][x], y) for x, y in pairs]}
 
 
-def proviso(idents, cell_of):
-    """no cell takes part in two identifications (pairs inside one cell are no identification at all)"""
-    cnt = {}
+def proviso(idents, coarse_of):
+    """no cell takes part in two identifications / separations of the call: the requested pairs fall into pairwise
+    different cells of the coarser partition (after a sew / before an unsew).  This is the proviso of C04 ("the two end
+    points of the edge are different vertices before and after") generalised to the k corners and sides of a 3-sew; a
+    pair whose two darts already are (still are) in one cell on the finer side counts: sharing a vertex or an edge
+    beforehand (ring closing) is allowed, meeting a second corner of the same call is not."""
+    seen = set()
     for a, c in idents:
         if a == 0 or c == 0:
             return False
-        ca, cc = cell_of[a], cell_of[c]
-        if ca is cc or ca == cc:
-            continue
-        for k in (ca, cc):
-            cnt[k] = cnt.get(k, 0) + 1
-            if cnt[k] > 1:
-                return False
+        k = coarse_of[a]
+        if k in seen:
+            return False
+        seen.add(k)
     return True
 
 
@@ -424,7 +425,7 @@ def _oracle_c05(case, li):
                 if fully_embedded(s0, b0, n, parts0):
                     bh, rh = link_effect(b0, n, False, dim, l, 0)
                     idents = identifications(b0, dim, l, rh, n)
-                    if all(proviso(idents[k], partition(k, bh, n)[1]) for k in KINDS_OF_DIM[dim]):
+                    if all(proviso(idents[k], partition(k, b0, n)[1]) for k in KINDS_OF_DIM[dim]):
                         return f"[unsew-refused] {inp}: answered {out!r} on a fully embedded closed-face map (dart {l} is {dim}-sewn to {b0[dim][l]})"
                     bump("skipped-multi-refused")
             last_sew = None
@@ -459,11 +460,13 @@ def _oracle_c05(case, li):
         P0 = {k: partition(k, b0, n) for k in ("v", "e", "f", "c")}
         P1 = {k: partition(k, b1, n) for k in ("v", "e", "f", "c")}
         for kind in KINDS_OF_DIM[dim]:
-            fine = P0[kind] if sew else P1[kind]
+            fine, coarse = (P0[kind], P1[kind]) if sew else (P1[kind], P0[kind])
+            if any(a and c and coarse[1][a] != coarse[1][c] for a, c in idents[kind]):
+                return f"[oracle-model] {inp}: a pair of {kind}-cells the call identifies is not one cell {'after' if sew else 'before'} it: {idents[kind]}"
             if dim == 3 and kind != "f" and any(a and c and fine[1][a] == fine[1][c] for a, c in idents[kind]):
                 # ring closing / re-opening: some corner or side of the two faces is (still) shared on the other side
                 bump(f"{sig}-with-shared-{kind}-cells")
-            if not proviso(idents[kind], fine[1]):
+            if not proviso(idents[kind], (P1 if sew else P0)[kind][1]):
                 bump("skipped-multi")
                 bump(f"skipped-multi-{sig}-{kind}")
                 continue
